@@ -1,0 +1,281 @@
+// Copyright 2020-2025 Buf Technologies, Inc.
+//
+// Licensed under the Apache License, Version 2.0 (the "License");
+// you may not use this file except in compliance with the License.
+// You may obtain a copy of the License at
+//
+//      http://www.apache.org/licenses/LICENSE-2.0
+//
+// Unless required by applicable law or agreed to in writing, software
+// distributed under the License is distributed on an "AS IS" BASIS,
+// WITHOUT WARRANTIES OR CONDITIONS OF ANY KIND, either express or implied.
+// See the License for the specific language governing permissions and
+// limitations under the License.
+
+//go:build verif
+
+package bufimageutil
+
+// Contracts for the gocv verifier (see /verif/DESIGN.md). Comment-only.
+//
+// C12 (round 4, author r4i): the image index, the known-extension walk of the closure, the option setters, the dependency
+// lists of a filtered file and the free-range report. Spec vocabulary (ri_*) lives in /verif/specs/R4i.spec.
+// Outside the fragment (exact engine messages in the r4i report): sourcePathsRemapTrie.fix / newPath and remapSlice (element
+// writes through a caller's slice), filterImage (range over an iterator function), shallowClone (reflection).
+//
+// isOptionsTypeName: the nine options messages of descriptor.proto (one per descriptor kind that can carry options,
+// compare l_hasOptions in C12.spec), nothing else.
+//@ func isOptionsTypeName(typeName) (r)
+//@   property C12
+//@   ensures exact-list: r <==> (typeName == "google.protobuf.FileOptions" || typeName == "google.protobuf.MessageOptions" || typeName == "google.protobuf.FieldOptions" || typeName == "google.protobuf.OneofOptions" || typeName == "google.protobuf.ExtensionRangeOptions" || typeName == "google.protobuf.EnumOptions" || typeName == "google.protobuf.EnumValueOptions" || typeName == "google.protobuf.ServiceOptions" || typeName == "google.protobuf.MethodOptions")
+//@   ensures only-descriptor-proto-package: r ==> hasPrefix(typeName, "google.protobuf.") && hasSuffix(typeName, "Options")
+//@   canary ensures r
+//@   canary ensures !r
+//
+// isMessageKind: Any payloads can only sit in message-typed (message or group) option values.
+//@ func isMessageKind(k) (r)
+//@   property C12
+//@   ensures message-or-group: r <==> (k == protoreflect.MessageKind || k == protoreflect.GroupKind)
+//@   canary ensures r
+//@   canary ensures !r
+//
+// newTransitiveClosure: a fresh closure knows no element and no import (so that "mode unknown" is the start for everything).
+//@ func newTransitiveClosure() (r)
+//@   property C12
+//@   reveal f_mode
+//@   ensures fresh-empty: r != nil && !old(allocated(r)) && len(r.elements) == 0 && len(r.imports) == 0
+//@   ensures maps-allocated: r.elements != nil && r.imports != nil
+//@   ensures nothing-marked: forall d namedDescriptor :: !(d in r.elements) && f_mode(r.elements, d) == inclusionModeUnknown
+//@   ensures no-imports: forall p string :: !(p in r.imports)
+//
+// The option setters: each sets exactly its option field.
+//@ func WithExcludeCustomOptions() (r)
+//@   property C12
+//@   closure 0 ensures sets-its-field: !opts.includeCustomOptions
+//@   closure 0 ensures others-untouched: opts.includeKnownExtensions == old(opts.includeKnownExtensions) && opts.allowImportedTypes == old(opts.allowImportedTypes) && opts.mutateInPlace == old(opts.mutateInPlace) && opts.includeTypes == old(opts.includeTypes) && opts.excludeTypes == old(opts.excludeTypes)
+//@ func WithExcludeKnownExtensions() (r)
+//@   property C12
+//@   closure 0 ensures sets-its-field: !opts.includeKnownExtensions
+//@   closure 0 ensures others-untouched: opts.includeCustomOptions == old(opts.includeCustomOptions) && opts.allowImportedTypes == old(opts.allowImportedTypes) && opts.mutateInPlace == old(opts.mutateInPlace) && opts.includeTypes == old(opts.includeTypes) && opts.excludeTypes == old(opts.excludeTypes)
+//@ func WithAllowIncludeOfImportedType() (r)
+//@   property C12
+//@   closure 0 ensures sets-its-field: opts.allowImportedTypes
+//@   closure 0 ensures others-untouched: opts.includeCustomOptions == old(opts.includeCustomOptions) && opts.includeKnownExtensions == old(opts.includeKnownExtensions) && opts.mutateInPlace == old(opts.mutateInPlace) && opts.includeTypes == old(opts.includeTypes) && opts.excludeTypes == old(opts.excludeTypes)
+//@ func WithMutateInPlace() (r)
+//@   property C12
+//@   closure 0 ensures sets-its-field: opts.mutateInPlace
+//@   closure 0 ensures others-untouched: opts.includeCustomOptions == old(opts.includeCustomOptions) && opts.includeKnownExtensions == old(opts.includeKnownExtensions) && opts.allowImportedTypes == old(opts.allowImportedTypes) && opts.includeTypes == old(opts.includeTypes) && opts.excludeTypes == old(opts.excludeTypes)
+// WithIncludeTypes / WithExcludeTypes ("may be provided multiple times"): the named types are ADDED to the set, nothing is
+// removed, nothing else is added, and an option that names no type leaves the set as it is (nil stays nil: FilterImage
+// treats "no include list" as "keep everything not excluded").
+//@ func WithIncludeTypes(typeNames) (r)
+//@   property C12
+//@   closure 0 ensures all-named-added: forall i int :: 0 <= i && i < len(typeNames) ==> typeNames[i] in opts.includeTypes
+//@   closure 0 ensures earlier-kept: forall k string :: k in old(opts.includeTypes) ==> k in opts.includeTypes
+//@   closure 0 ensures nothing-else-added: forall k string :: k in opts.includeTypes && !(k in old(opts.includeTypes)) ==> (exists i int :: 0 <= i && i < len(typeNames) && typeNames[i] == k)
+//@   closure 0 ensures no-names-no-change: len(typeNames) == 0 ==> opts.includeTypes == old(opts.includeTypes)
+//@   closure 0 ensures others-untouched: opts.includeCustomOptions == old(opts.includeCustomOptions) && opts.includeKnownExtensions == old(opts.includeKnownExtensions) && opts.allowImportedTypes == old(opts.allowImportedTypes) && opts.mutateInPlace == old(opts.mutateInPlace) && opts.excludeTypes == old(opts.excludeTypes)
+//@   loop 0 invariant forall i int :: 0 <= i && i < $i ==> typeNames[i] in opts.includeTypes
+//@   loop 0 invariant forall k string :: k in $entry(opts.includeTypes) ==> k in opts.includeTypes
+//@   loop 0 invariant forall k string :: k in opts.includeTypes && !(k in $entry(opts.includeTypes)) ==> (exists i int :: 0 <= i && i < $i && typeNames[i] == k)
+//@   loop 0 invariant opts.includeCustomOptions == $entry(opts.includeCustomOptions) && opts.includeKnownExtensions == $entry(opts.includeKnownExtensions) && opts.allowImportedTypes == $entry(opts.allowImportedTypes) && opts.mutateInPlace == $entry(opts.mutateInPlace) && opts.excludeTypes == $entry(opts.excludeTypes)
+//@   loop 0 invariant $i == 0 ==> opts.includeTypes == $entry(opts.includeTypes)
+//@ func WithExcludeTypes(typeNames) (r)
+//@   property C12
+//@   closure 0 ensures all-named-added: forall i int :: 0 <= i && i < len(typeNames) ==> typeNames[i] in opts.excludeTypes
+//@   closure 0 ensures earlier-kept: forall k string :: k in old(opts.excludeTypes) ==> k in opts.excludeTypes
+//@   closure 0 ensures nothing-else-added: forall k string :: k in opts.excludeTypes && !(k in old(opts.excludeTypes)) ==> (exists i int :: 0 <= i && i < len(typeNames) && typeNames[i] == k)
+//@   closure 0 ensures no-names-no-change: len(typeNames) == 0 ==> opts.excludeTypes == old(opts.excludeTypes)
+//@   closure 0 ensures others-untouched: opts.includeCustomOptions == old(opts.includeCustomOptions) && opts.includeKnownExtensions == old(opts.includeKnownExtensions) && opts.allowImportedTypes == old(opts.allowImportedTypes) && opts.mutateInPlace == old(opts.mutateInPlace) && opts.includeTypes == old(opts.includeTypes)
+//@   loop 0 invariant forall i int :: 0 <= i && i < $i ==> typeNames[i] in opts.excludeTypes
+//@   loop 0 invariant forall k string :: k in $entry(opts.excludeTypes) ==> k in opts.excludeTypes
+//@   loop 0 invariant forall k string :: k in opts.excludeTypes && !(k in $entry(opts.excludeTypes)) ==> (exists i int :: 0 <= i && i < $i && typeNames[i] == k)
+//@   loop 0 invariant opts.includeCustomOptions == $entry(opts.includeCustomOptions) && opts.includeKnownExtensions == $entry(opts.includeKnownExtensions) && opts.allowImportedTypes == $entry(opts.allowImportedTypes) && opts.mutateInPlace == $entry(opts.mutateInPlace) && opts.includeTypes == $entry(opts.includeTypes)
+//@   loop 0 invariant $i == 0 ==> opts.excludeTypes == $entry(opts.excludeTypes)
+
+//
+// addPackageToIndex ("packages include all parent packages"): the package is registered under its own name, every package
+// registered before stays as it was, only the package itself and its ancestors are new, and afterwards every registered
+// package but the root has its parent package registered (ri_parentPkg: the name up to the last dot, "" without a dot), with
+// a new package listed among its parent's sub-packages. The precondition describes the index while the recursion is under
+// way: the only package whose parent may still be missing is the one whose parent is being added.
+//@ func addPackageToIndex(pkgName, index) (r)
+//@   property C12
+//@   reveal ri_parentPkg
+//@   modifies heap imageIndex.Packages, heap packageInfo.subPackages
+//@   requires index-allocated: index != nil && index.Packages != nil
+//@   requires registered-under-own-name: forall k string :: k in index.Packages ==> index.Packages[k] != nil && allocated(index.Packages[k]) && index.Packages[k].fullName == k
+//@   requires parents-present-but-for-this: forall q string :: q in index.Packages && q != "" && !(ri_parentPkg(q) in index.Packages) ==> ri_parentPkg(q) == pkgName
+//@   ensures registered: r != nil && pkgName in index.Packages && index.Packages[pkgName] == r && r.fullName == pkgName
+//@   ensures registered-under-own-name: forall k string :: k in index.Packages ==> index.Packages[k] != nil && allocated(index.Packages[k]) && index.Packages[k].fullName == k
+//@   ensures all-parents-present: forall q string :: q in index.Packages && q != "" ==> ri_parentPkg(q) in index.Packages
+//@   ensures earlier-kept: forall k string :: k in old(index.Packages) ==> k in index.Packages && index.Packages[k] == old(index.Packages)[k]
+//@   ensures only-ancestors-added: forall k string :: k in index.Packages && !(k in old(index.Packages)) ==> k == pkgName || k == "" || hasPrefix(pkgName, k + ".")
+//@   ensures existing-is-noop: pkgName in old(index.Packages) ==> index.Packages == old(index.Packages) && (forall p *packageInfo :: old(allocated(p)) ==> p.subPackages == old(p.subPackages))
+//@   ensures listed-in-parent: !(pkgName in old(index.Packages)) && pkgName != "" ==> (exists i int :: 0 <= i && i < len(index.Packages[ri_parentPkg(pkgName)].subPackages) && index.Packages[ri_parentPkg(pkgName)].subPackages[i] == r)
+//@   ensures sub-packages-only-grow: forall p *packageInfo, i int :: old(allocated(p)) && 0 <= i && i < len(old(p.subPackages)) ==> i < len(p.subPackages) && p.subPackages[i] == old(p.subPackages)[i]
+//@   ensures new-is-fresh-and-empty: !(pkgName in old(index.Packages)) ==> !old(allocated(r)) && len(r.files) == 0
+//@   canary ensures !(pkgName in old(index.Packages))
+//
+// newImageIndexForImage (index completeness). ri_declaredIn / ri_fullName: what the descriptor walk reports (R4i.spec).
+// Every message, enum, service, method and extension of every file, at any nesting depth, is in ByName under its full name,
+// mapped to the very descriptor and to the file that declares it (and is in ByDescriptor); nothing else is in ByName; with
+// known-extension retention NameToExtensions[x] lists every declared extension of x and only extensions of x; every
+// package of a file is registered together with all its parent packages; a name declared twice is an error.
+//@ func newImageIndexForImage(image, options) (r, err)
+//@   property C12
+//@   reveal ri_indexedKind
+//@   modifies ghost.ri_extSlot, heap imageIndex.ByName, heap imageIndex.ByDescriptor, heap imageIndex.Packages, heap imageIndex.FileTypes, heap imageIndex.NameToOptions, heap imageIndex.NameToExtensions, heap packageInfo.files, heap packageInfo.subPackages
+//@   requires options != nil
+// (cost) two statements of the walk callback are abstracted by havoc of what they assign: the computation of the parent element
+// (assigns only the local `parent`, nothing is claimed about elementInfo.parent) and the registration of custom options in
+// NameToOptions (assigns only that map, nothing is claimed about it); this cuts the callback from 60 to 8 paths
+//@   skip "if pos := strings.LastIndexByte(string(name), '.'); pos != -1 {"
+//@   skip "if options.includeCustomOptions && isOptionsTypeName(extendeeName) {"
+// witness for 'is listed': the position at which an extension was appended to its extendee's list
+//@   ghost after "index.NameToExtensions[extendeeName] = append(" ri_extSlot := put(ghost.ri_extSlot, d, len(index.NameToExtensions[extendeeName]) - 1)
+//@   ensures error-no-index: err != nil ==> r == nil
+//@   ensures fresh: err == nil ==> r != nil && !old(allocated(r))
+//@   ensures every-declared-element-indexed: err == nil ==> (forall j int, d ref :: 0 <= j && j < len(image.Files()) && ri_declaredIn(image.Files()[j].FileDescriptorProto(), d) && ri_indexedKind(d, cast(*descriptorpb.FieldDescriptorProto, d).Extendee != nil) ==> ri_fullName(image.Files()[j].FileDescriptorProto(), d) in r.ByName && r.ByName[ri_fullName(image.Files()[j].FileDescriptorProto(), d)].element == d && r.ByName[ri_fullName(image.Files()[j].FileDescriptorProto(), d)].file == image.Files()[j] && r.ByName[ri_fullName(image.Files()[j].FileDescriptorProto(), d)].fullName == ri_fullName(image.Files()[j].FileDescriptorProto(), d) && d in r.ByDescriptor)
+//@   ensures only-declared-elements-indexed: err == nil ==> (forall n protoreflect.FullName :: n in r.ByName ==> r.ByName[n].element != nil && r.ByName[n].fullName == n && ri_indexedKind(r.ByName[n].element, cast(*descriptorpb.FieldDescriptorProto, r.ByName[n].element).Extendee != nil) && ri_declaredIn(r.ByName[n].file.FileDescriptorProto(), r.ByName[n].element) && n == ri_fullName(r.ByName[n].file.FileDescriptorProto(), r.ByName[n].element) && r.ByName[n].element in r.ByDescriptor)
+//@   ensures every-extension-listed: err == nil ==> (forall j int, d ref :: options.includeKnownExtensions && 0 <= j && j < len(image.Files()) && ri_declaredIn(image.Files()[j].FileDescriptorProto(), d) && typeOf(d) == typeId(*descriptorpb.FieldDescriptorProto) && cast(*descriptorpb.FieldDescriptorProto, d).Extendee != nil ==> strings.TrimPrefix(cast(*descriptorpb.FieldDescriptorProto, d).GetExtendee(), ".") in r.NameToExtensions && d in ghost.ri_extSlot && 0 <= ghost.ri_extSlot[d] && ghost.ri_extSlot[d] < len(r.NameToExtensions[strings.TrimPrefix(cast(*descriptorpb.FieldDescriptorProto, d).GetExtendee(), ".")]) && r.NameToExtensions[strings.TrimPrefix(cast(*descriptorpb.FieldDescriptorProto, d).GetExtendee(), ".")][ghost.ri_extSlot[d]] == d)
+//@   ensures only-extensions-of-the-extendee-listed: err == nil ==> (forall x protoreflect.FullName, k int :: x in r.NameToExtensions && 0 <= k && k < len(r.NameToExtensions[x]) ==> r.NameToExtensions[x][k] != nil && r.NameToExtensions[x][k].Extendee != nil && strings.TrimPrefix(r.NameToExtensions[x][k].GetExtendee(), ".") == x && r.NameToExtensions[x][k] in r.ByDescriptor)
+//@   ensures no-extension-lists-without-retention: err == nil && !options.includeKnownExtensions ==> r.NameToExtensions == nil
+//@   ensures file-packages-registered: err == nil ==> (forall j int :: 0 <= j && j < len(image.Files()) ==> image.Files()[j].FileDescriptorProto().GetPackage() in r.Packages)
+//@   ensures packages-closed-under-parents: err == nil ==> r.Packages != nil && (forall k string :: k in r.Packages ==> r.Packages[k] != nil && allocated(r.Packages[k]) && r.Packages[k].fullName == k) && (forall q string :: q in r.Packages && q != "" ==> ri_parentPkg(q) in r.Packages)
+//@   ensures file-descriptors-indexed: err == nil ==> (forall j int :: 0 <= j && j < len(image.Files()) ==> image.Files()[j].FileDescriptorProto() in r.ByDescriptor)
+//@   loop 0 invariant index != nil && (!options.includeKnownExtensions ==> index.NameToExtensions == nil)
+//@   loop 0 invariant index.Packages != nil && (forall k string :: k in index.Packages ==> index.Packages[k] != nil && allocated(index.Packages[k]) && index.Packages[k].fullName == k) && (forall q string :: q in index.Packages && q != "" ==> ri_parentPkg(q) in index.Packages)
+//@   loop 0 invariant forall j int, d ref :: 0 <= j && j < $i && ri_declaredIn(image.Files()[j].FileDescriptorProto(), d) && ri_indexedKind(d, cast(*descriptorpb.FieldDescriptorProto, d).Extendee != nil) ==> ri_fullName(image.Files()[j].FileDescriptorProto(), d) in index.ByName && index.ByName[ri_fullName(image.Files()[j].FileDescriptorProto(), d)].element == d && index.ByName[ri_fullName(image.Files()[j].FileDescriptorProto(), d)].file == image.Files()[j] && index.ByName[ri_fullName(image.Files()[j].FileDescriptorProto(), d)].fullName == ri_fullName(image.Files()[j].FileDescriptorProto(), d) && d in index.ByDescriptor
+//@   loop 0 invariant forall n protoreflect.FullName :: n in index.ByName ==> index.ByName[n].element != nil && index.ByName[n].fullName == n && ri_indexedKind(index.ByName[n].element, cast(*descriptorpb.FieldDescriptorProto, index.ByName[n].element).Extendee != nil) && ri_declaredIn(index.ByName[n].file.FileDescriptorProto(), index.ByName[n].element) && n == ri_fullName(index.ByName[n].file.FileDescriptorProto(), index.ByName[n].element) && index.ByName[n].element in index.ByDescriptor
+//@   loop 0 invariant forall j int, d ref :: options.includeKnownExtensions && 0 <= j && j < $i && ri_declaredIn(image.Files()[j].FileDescriptorProto(), d) && typeOf(d) == typeId(*descriptorpb.FieldDescriptorProto) && cast(*descriptorpb.FieldDescriptorProto, d).Extendee != nil ==> strings.TrimPrefix(cast(*descriptorpb.FieldDescriptorProto, d).GetExtendee(), ".") in index.NameToExtensions && d in ghost.ri_extSlot && 0 <= ghost.ri_extSlot[d] && ghost.ri_extSlot[d] < len(index.NameToExtensions[strings.TrimPrefix(cast(*descriptorpb.FieldDescriptorProto, d).GetExtendee(), ".")]) && index.NameToExtensions[strings.TrimPrefix(cast(*descriptorpb.FieldDescriptorProto, d).GetExtendee(), ".")][ghost.ri_extSlot[d]] == d
+//@   loop 0 invariant forall x protoreflect.FullName, k int :: x in index.NameToExtensions && 0 <= k && k < len(index.NameToExtensions[x]) ==> index.NameToExtensions[x][k] != nil && index.NameToExtensions[x][k].Extendee != nil && strings.TrimPrefix(index.NameToExtensions[x][k].GetExtendee(), ".") == x && index.NameToExtensions[x][k] in index.ByDescriptor
+//@   loop 0 invariant forall j int :: 0 <= j && j < $i ==> image.Files()[j].FileDescriptorProto().GetPackage() in index.Packages && image.Files()[j].FileDescriptorProto() in index.ByDescriptor
+//@   closure 0 invariant !options.includeKnownExtensions ==> index.NameToExtensions == nil
+//@   closure 0 invariant forall j int, d ref :: 0 <= j && j < $i0 && ri_declaredIn(image.Files()[j].FileDescriptorProto(), d) && ri_indexedKind(d, cast(*descriptorpb.FieldDescriptorProto, d).Extendee != nil) ==> ri_fullName(image.Files()[j].FileDescriptorProto(), d) in index.ByName && index.ByName[ri_fullName(image.Files()[j].FileDescriptorProto(), d)].element == d && index.ByName[ri_fullName(image.Files()[j].FileDescriptorProto(), d)].file == image.Files()[j] && index.ByName[ri_fullName(image.Files()[j].FileDescriptorProto(), d)].fullName == ri_fullName(image.Files()[j].FileDescriptorProto(), d) && d in index.ByDescriptor
+//@   closure 0 invariant forall n protoreflect.FullName :: n in index.ByName ==> index.ByName[n].element != nil && index.ByName[n].fullName == n && ri_indexedKind(index.ByName[n].element, cast(*descriptorpb.FieldDescriptorProto, index.ByName[n].element).Extendee != nil) && ri_declaredIn(index.ByName[n].file.FileDescriptorProto(), index.ByName[n].element) && n == ri_fullName(index.ByName[n].file.FileDescriptorProto(), index.ByName[n].element) && index.ByName[n].element in index.ByDescriptor
+//@   closure 0 invariant forall j int, d ref :: options.includeKnownExtensions && 0 <= j && j < $i0 && ri_declaredIn(image.Files()[j].FileDescriptorProto(), d) && typeOf(d) == typeId(*descriptorpb.FieldDescriptorProto) && cast(*descriptorpb.FieldDescriptorProto, d).Extendee != nil ==> strings.TrimPrefix(cast(*descriptorpb.FieldDescriptorProto, d).GetExtendee(), ".") in index.NameToExtensions && d in ghost.ri_extSlot && 0 <= ghost.ri_extSlot[d] && ghost.ri_extSlot[d] < len(index.NameToExtensions[strings.TrimPrefix(cast(*descriptorpb.FieldDescriptorProto, d).GetExtendee(), ".")]) && index.NameToExtensions[strings.TrimPrefix(cast(*descriptorpb.FieldDescriptorProto, d).GetExtendee(), ".")][ghost.ri_extSlot[d]] == d
+//@   closure 0 invariant forall x protoreflect.FullName, k int :: x in index.NameToExtensions && 0 <= k && k < len(index.NameToExtensions[x]) ==> index.NameToExtensions[x][k] != nil && index.NameToExtensions[x][k].Extendee != nil && strings.TrimPrefix(index.NameToExtensions[x][k].GetExtendee(), ".") == x && index.NameToExtensions[x][k] in index.ByDescriptor
+//@   closure 0 invariant forall d ref :: d in $yielded && ri_indexedKind(d, cast(*descriptorpb.FieldDescriptorProto, d).Extendee != nil) ==> ri_fullName(fileDescriptorProto, d) in index.ByName && index.ByName[ri_fullName(fileDescriptorProto, d)].element == d && index.ByName[ri_fullName(fileDescriptorProto, d)].file == imageFile && index.ByName[ri_fullName(fileDescriptorProto, d)].fullName == ri_fullName(fileDescriptorProto, d) && d in index.ByDescriptor
+//@   closure 0 invariant forall d ref :: options.includeKnownExtensions && d in $yielded && typeOf(d) == typeId(*descriptorpb.FieldDescriptorProto) && cast(*descriptorpb.FieldDescriptorProto, d).Extendee != nil ==> strings.TrimPrefix(cast(*descriptorpb.FieldDescriptorProto, d).GetExtendee(), ".") in index.NameToExtensions && d in ghost.ri_extSlot && 0 <= ghost.ri_extSlot[d] && ghost.ri_extSlot[d] < len(index.NameToExtensions[strings.TrimPrefix(cast(*descriptorpb.FieldDescriptorProto, d).GetExtendee(), ".")]) && index.NameToExtensions[strings.TrimPrefix(cast(*descriptorpb.FieldDescriptorProto, d).GetExtendee(), ".")][ghost.ri_extSlot[d]] == d
+//@   closure 0 invariant forall j int :: 0 <= j && j <= $i0 && j < len(image.Files()) ==> image.Files()[j].FileDescriptorProto() in index.ByDescriptor
+//
+// addExtensions: without known-extension retention nothing happens at all. With it, the walk only ever ADDS to the closure
+// (bookkeeping clauses of the addElement family), never excludes a message the filter did not name (stated, like for
+// addElement, for filters without custom-option retention) and never enters an extension that the filter excluded; and it runs
+// to a FIXED POINT: every message that is explicitly included in the closure when it returns has had its known extensions
+// walked (ghost.ri_msgVisited records the messages whose extension list was ranged over) - also the messages that became
+// explicit only through an extension entered here (the extension's own message type).
+// DETERMINISM (C12 'applying the same filter twice equals applying it once' presupposes that the result is a function of image
+// and options; C02): the Go specification leaves open whether an entry created during a range over a map is produced, so
+// the range over t.elements must not insert into it: loop 1 invariant 0.
+// History: FAILED on the tree before the repair 'addExtensions: collect first, repeat to a fixed point' (then: inv-step[1.0] of the
+// old loop structure): addElement(extension) was called inside `for e, mode := range t.elements`; it enters the extension's
+// own message type as explicitly included, and whether THAT message's known extensions were collected depended on the map
+// iteration order. Probe /tmp/ca/r4/i/probe/ri_probe_test.go on the real code: a.proto {message M1{extensions 100 to 200;}
+// message M2{extensions 100 to 200;} extend M1{optional M2 e1=100;} extend M2{optional string e2=100;}}, WithIncludeTypes("pkg.M1"),
+// 400 runs of the same filter on the same image: 261 images with e2, 139 without.
+//@ func (t *transitiveClosure) addExtensions(imageIndex, opts) (err)
+//@   property C12
+//@   reveal f_mode, l_needsKept
+//@   modifies heap, ghost.l_kept, ghost.l_optRead, ghost.l_impTo, ghost.l_impCount, ghost.ri_msgVisited
+//@   ghost after "descriptorInfo := imageIndex.ByDescriptor[msgDescriptor]" ri_msgVisited := add(ghost.ri_msgVisited, msgDescriptor)
+//@   ensures off-is-noop: !old(opts.includeKnownExtensions) ==> err == nil && t.elements == old(t.elements) && t.imports == old(t.imports) && ghost.l_kept == old(ghost.l_kept) && ghost.l_optRead == old(ghost.l_optRead) && ghost.l_impTo == old(ghost.l_impTo) && ghost.l_impCount == old(ghost.l_impCount) && ghost.ri_msgVisited == old(ghost.ri_msgVisited)
+//@   ensures fixed-point-every-explicit-message-walked: err == nil && old(opts.includeKnownExtensions) ==> (forall d namedDescriptor :: d != nil && d in t.elements && t.elements[d] == inclusionModeExplicit && typeOf(d) == typeId(*descriptorpb.DescriptorProto) ==> d in ghost.ri_msgVisited)
+//@   ensures options-untouched: !old(opts.includeCustomOptions) ==> !opts.includeCustomOptions
+//@   ensures no-message-newly-excluded: !old(opts.includeCustomOptions) ==> (forall d namedDescriptor :: d != nil && typeOf(d) == typeId(*descriptorpb.DescriptorProto) && f_mode(old(t.elements), d) != inclusionModeExcluded ==> f_mode(t.elements, d) != inclusionModeExcluded)
+//@   ensures kept-monotone: forall d ref :: d in old(ghost.l_kept) ==> d in ghost.l_kept
+//@   ensures explored-monotone: forall d ref :: d in old(ghost.l_optRead) ==> d in ghost.l_optRead
+//@   ensures imports-monotone: ghost.l_impCount >= old(ghost.l_impCount) && (forall p string :: p in old(ghost.l_impTo) ==> p in ghost.l_impTo)
+//@   ensures explored-only-kept: forall d ref :: d != nil && d in ghost.l_optRead && !(d in old(ghost.l_optRead)) && l_needsKept(d) ==> d in ghost.l_kept
+//@   assert before "if err := t.addElement(extendsDescriptor" excluded-extension-not-entered: f_mode(t.elements, extendsDescriptor) != inclusionModeExcluded
+//@   loop 0 invariant !old(opts.includeCustomOptions) ==> !opts.includeCustomOptions
+//@   loop 0 invariant !old(opts.includeCustomOptions) ==> (forall d namedDescriptor :: d != nil && typeOf(d) == typeId(*descriptorpb.DescriptorProto) && f_mode(old(t.elements), d) != inclusionModeExcluded ==> f_mode(t.elements, d) != inclusionModeExcluded)
+//@   loop 0 invariant forall d ref :: d in old(ghost.l_kept) ==> d in ghost.l_kept
+//@   loop 0 invariant forall d ref :: d in old(ghost.l_optRead) ==> d in ghost.l_optRead
+//@   loop 0 invariant ghost.l_impCount >= old(ghost.l_impCount) && (forall p string :: p in old(ghost.l_impTo) ==> p in ghost.l_impTo)
+//@   loop 0 invariant forall d ref :: d != nil && d in ghost.l_optRead && !(d in old(ghost.l_optRead)) && l_needsKept(d) ==> d in ghost.l_kept
+//@   loop 0 invariant forall d *descriptorpb.DescriptorProto :: d in collected ==> d in ghost.ri_msgVisited
+//@   loop 1 invariant forall d namedDescriptor :: d in t.elements ==> d in $entry(t.elements)
+//@   loop 1 invariant forall d *descriptorpb.DescriptorProto :: d in collected ==> d in ghost.ri_msgVisited || (exists j int :: 0 <= j && j < len(msgDescriptors) && msgDescriptors[j] == d)
+//@   loop 1 invariant forall d namedDescriptor :: d != nil && d in $visited && d in t.elements && t.elements[d] == inclusionModeExplicit && typeOf(d) == typeId(*descriptorpb.DescriptorProto) ==> cast(*descriptorpb.DescriptorProto, d) in collected
+//@   loop 2 invariant !old(opts.includeCustomOptions) ==> !opts.includeCustomOptions
+//@   loop 2 invariant !old(opts.includeCustomOptions) ==> (forall d namedDescriptor :: d != nil && typeOf(d) == typeId(*descriptorpb.DescriptorProto) && f_mode(old(t.elements), d) != inclusionModeExcluded ==> f_mode(t.elements, d) != inclusionModeExcluded)
+//@   loop 2 invariant forall d ref :: d in old(ghost.l_kept) ==> d in ghost.l_kept
+//@   loop 2 invariant forall d ref :: d in old(ghost.l_optRead) ==> d in ghost.l_optRead
+//@   loop 2 invariant ghost.l_impCount >= old(ghost.l_impCount) && (forall p string :: p in old(ghost.l_impTo) ==> p in ghost.l_impTo)
+//@   loop 2 invariant forall d ref :: d != nil && d in ghost.l_optRead && !(d in old(ghost.l_optRead)) && l_needsKept(d) ==> d in ghost.l_kept
+//@   loop 2 invariant forall d *descriptorpb.DescriptorProto :: d in collected ==> d in ghost.ri_msgVisited || (exists j int :: $i <= j && j < len(msgDescriptors) && msgDescriptors[j] == d)
+//@   loop 3 invariant !old(opts.includeCustomOptions) ==> !opts.includeCustomOptions
+//@   loop 3 invariant !old(opts.includeCustomOptions) ==> (forall d namedDescriptor :: d != nil && typeOf(d) == typeId(*descriptorpb.DescriptorProto) && f_mode(old(t.elements), d) != inclusionModeExcluded ==> f_mode(t.elements, d) != inclusionModeExcluded)
+//@   loop 3 invariant forall d ref :: d in old(ghost.l_kept) ==> d in ghost.l_kept
+//@   loop 3 invariant forall d ref :: d in old(ghost.l_optRead) ==> d in ghost.l_optRead
+//@   loop 3 invariant ghost.l_impCount >= old(ghost.l_impCount) && (forall p string :: p in old(ghost.l_impTo) ==> p in ghost.l_impTo)
+//@   loop 3 invariant forall d ref :: d != nil && d in ghost.l_optRead && !(d in old(ghost.l_optRead)) && l_needsKept(d) ==> d in ghost.l_kept
+//@   loop 3 invariant forall d *descriptorpb.DescriptorProto :: d in collected ==> d in ghost.ri_msgVisited || (exists j int :: $i2 < j && j < len(msgDescriptors) && msgDescriptors[j] == d)
+//
+// stripSourceRetentionOptionsFromFile: the file keeps its identity. Either the very same file comes back (nothing to strip) or a
+// new file around the stripped descriptor that is an import / has unspecified syntax / has unused dependencies exactly as before.
+//@ func stripSourceRetentionOptionsFromFile(imageFile) (r, err)
+//@   property C12
+//@   ensures a-file-or-an-error: imageFile != nil && err == nil ==> r != nil
+//@   ensures import-flag-kept: imageFile != nil && err == nil ==> r.IsImport() == imageFile.IsImport()
+//@   ensures syntax-flag-kept: imageFile != nil && err == nil ==> r.IsSyntaxUnspecified() == imageFile.IsSyntaxUnspecified()
+//@   ensures unused-dependencies-kept: imageFile != nil && err == nil ==> len(r.UnusedDependencyIndexes()) == len(imageFile.UnusedDependencyIndexes()) && (forall a int :: 0 <= a && a < len(imageFile.UnusedDependencyIndexes()) ==> r.UnusedDependencyIndexes()[a] == imageFile.UnusedDependencyIndexes()[a])
+//@   ensures new-file-holds-a-descriptor: imageFile != nil && err == nil && r != imageFile ==> r.FileDescriptorProto() != nil && r.FileDescriptorProto() != imageFile.FileDescriptorProto()
+//@   canary ensures r == imageFile
+//@   canary ensures r != imageFile
+//
+// remapDependencies ("still links" / "minimal", file level): a dependency survives only if the closure recorded an import of it
+// for this file, public imports are dropped on every rewrite, and a file reported as unchanged keeps its three lists as they are
+// and imports only what is needed. Engine limit: `sort.Strings(newDependencies[len(newDependencies)-publicImportCount:])` sorts a
+// sub-slice in place ("out-of-fragment: assignment target *ast.SliceExpr"); the statement is abstracted (skip), which is harmless
+// for the clauses below: they speak about the SET of kept dependencies and about positions in the prefix built by the second
+// loop, and sorting the sub-slice permutes only the elements appended after that prefix (assumption, listed). The weak imports
+// are renumbered consistently: a surviving weak index still points to the same file. Not claimed: the order of the result.
+//@ func (b *sourcePathsBuilder) remapDependencies(sourcePathsRemap, sourcePath, fileDescriptor) (deps, pubs, weaks, changed, err)
+//@   property C12
+//@   modifies heap
+//@   skip "sort.Strings(newDependencies[len(newDependencies)-publicImportCount:])"
+//@   ensures no-error: err == nil
+//@   ensures unchanged-is-same: !changed ==> deps == fileDescriptor.GetDependency() && len(pubs) == 0 && (fileDescriptor != nil ==> pubs == old(fileDescriptor.PublicDependency) && weaks == old(fileDescriptor.WeakDependency))
+//@   ensures unchanged-imports-only-needed: !changed ==> (forall i int :: 0 <= i && i < len(deps) ==> fileDescriptor.GetName() in old(b.closure.imports) && deps[i] in old(b.closure.imports)[fileDescriptor.GetName()])
+//@   ensures rewritten-has-no-public-imports: changed ==> len(pubs) == 0
+//@   ensures kept-are-needed: changed ==> (forall i int :: 0 <= i && i < len(deps) ==> fileDescriptor.GetName() in old(b.closure.imports) && deps[i] in old(b.closure.imports)[fileDescriptor.GetName()])
+//@   ensures needed-are-kept: changed ==> (forall p string :: fileDescriptor.GetName() in old(b.closure.imports) && p in old(b.closure.imports)[fileDescriptor.GetName()] ==> (exists k int :: 0 <= k && k < len(deps) && deps[k] == p))
+//@   canary ensures changed
+//@   loop 0 invariant forall p string :: p in importsRequired ==> fileDescriptor.GetName() in old(b.closure.imports) && p in old(b.closure.imports)[fileDescriptor.GetName()]
+//@   loop 0 invariant forall j int :: 0 <= j && j < $i ==> dependencies[j] in importsRequired
+//@   loop 1 invariant forall k int :: 0 <= k && k < len(newDependencies) ==> fileDescriptor.GetName() in old(b.closure.imports) && newDependencies[k] in old(b.closure.imports)[fileDescriptor.GetName()]
+//@   loop 1 invariant forall p string :: p in importsRequired ==> fileDescriptor.GetName() in old(b.closure.imports) && p in old(b.closure.imports)[fileDescriptor.GetName()]
+//@   loop 2 invariant forall k int :: 0 <= k && k < len(newDependencies) ==> fileDescriptor.GetName() in old(b.closure.imports) && newDependencies[k] in old(b.closure.imports)[fileDescriptor.GetName()]
+//@   loop 2 invariant forall p string :: p in importsRequired ==> fileDescriptor.GetName() in old(b.closure.imports) && p in old(b.closure.imports)[fileDescriptor.GetName()]
+//@   loop 1 invariant forall p string :: fileDescriptor.GetName() in old(b.closure.imports) && p in old(b.closure.imports)[fileDescriptor.GetName()] ==> p in importsRequired || (exists k int :: 0 <= k && k < len(newDependencies) && newDependencies[k] == p)
+//@   loop 2 invariant forall p string :: fileDescriptor.GetName() in old(b.closure.imports) && p in old(b.closure.imports)[fileDescriptor.GetName()] ==> (p in importsRequired && !(p in $visited)) || (exists k int :: 0 <= k && k < len(newDependencies) && newDependencies[k] == p)
+//@   ensures weak-imports-point-to-the-same-files: changed && fileDescriptor != nil && (forall j int :: 0 <= j && j < len(old(fileDescriptor.WeakDependency)) ==> 0 <= old(fileDescriptor.WeakDependency)[j] && old(fileDescriptor.WeakDependency)[j] < len(fileDescriptor.GetDependency())) ==> (forall k int :: 0 <= k && k < len(weaks) ==> 0 <= weaks[k] && weaks[k] < len(deps) && (exists j int :: 0 <= j && j < len(old(fileDescriptor.WeakDependency)) && deps[weaks[k]] == fileDescriptor.GetDependency()[old(fileDescriptor.WeakDependency)[j]]))
+//@   loop 1 invariant len(dependencyChanges) == len(dependencies) && indexFrom == $i && indexTo == len(newDependencies)
+//@   loop 1 invariant forall j int :: 0 <= j && j < $i ==> dependencyChanges[j] == -1 || (0 <= dependencyChanges[j] && dependencyChanges[j] < len(newDependencies) && newDependencies[dependencyChanges[j]] == dependencies[j])
+//@   loop 2 invariant len(dependencyChanges) == len(dependencies) && (forall j int :: 0 <= j && j < len(dependencies) ==> dependencyChanges[j] == -1 || (0 <= dependencyChanges[j] && dependencyChanges[j] < len(newDependencies) && newDependencies[dependencyChanges[j]] == dependencies[j]))
+//@   loop 3 invariant len(dependencyChanges) == len(dependencies) && (forall j int :: 0 <= j && j < len(dependencies) ==> dependencyChanges[j] == -1 || (0 <= dependencyChanges[j] && dependencyChanges[j] < len(newDependencies) && newDependencies[dependencyChanges[j]] == dependencies[j]))
+//@   loop 3 invariant (forall j int :: 0 <= j && j < len(weakDependencies) ==> 0 <= weakDependencies[j] && weakDependencies[j] < len(dependencies)) ==> (forall k int :: 0 <= k && k < len(newWeakDependencies) ==> 0 <= newWeakDependencies[k] && newWeakDependencies[k] < len(newDependencies) && (exists j int :: 0 <= j && j < $i && 0 <= weakDependencies[j] && weakDependencies[j] < len(dependencies) && newDependencies[newWeakDependencies[k]] == dependencies[weakDependencies[j]]))
+//
+// freeMessageRanges (shape of the report; the input is a valid message: reserved and extension ranges are non-empty and lie in
+// [1, max + 1), field numbers lie in [1, max]): the free ranges are well-formed, lie within [1, max], and are sorted and
+// pairwise disjoint. Not claimed (time): that they are exactly the complement of the used numbers.
+//@ func freeMessageRanges(message) (r)
+//@   property C12
+//@   requires valid-reserved: forall i int :: 0 <= i && i < len(message.GetReservedRange()) ==> 1 <= message.GetReservedRange()[i].GetStart() && message.GetReservedRange()[i].GetStart() < message.GetReservedRange()[i].GetEnd() && message.GetReservedRange()[i].GetEnd() <= messageRangeInclusiveMax + 1
+//@   requires valid-extension-ranges: forall i int :: 0 <= i && i < len(message.GetExtensionRange()) ==> 1 <= message.GetExtensionRange()[i].GetStart() && message.GetExtensionRange()[i].GetStart() < message.GetExtensionRange()[i].GetEnd() && message.GetExtensionRange()[i].GetEnd() <= messageRangeInclusiveMax + 1
+//@   requires valid-field-numbers: forall i int :: 0 <= i && i < len(message.GetField()) ==> 1 <= message.GetField()[i].GetNumber() && message.GetField()[i].GetNumber() <= messageRangeInclusiveMax
+//@   ensures well-formed-within-bounds: forall k int :: 0 <= k && k < len(r) ==> 1 <= r[k].start && r[k].start <= r[k].end && r[k].end <= messageRangeInclusiveMax
+//@   ensures sorted-and-disjoint: forall a int, b int :: 0 <= a && a < b && b < len(r) ==> r[a].end < r[b].start
+//@   canary ensures len(r) == 0
+//@   canary ensures len(r) != 0
+//@   closure 0 ensures r == (used[i].start < used[j].start)
+//@   loop 0 invariant forall k int :: 0 <= k && k < len(used) ==> 1 <= used[k].start && used[k].start <= used[k].end && used[k].end <= messageRangeInclusiveMax
+//@   loop 1 invariant forall k int :: 0 <= k && k < len(used) ==> 1 <= used[k].start && used[k].start <= used[k].end && used[k].end <= messageRangeInclusiveMax
+//@   loop 2 invariant forall k int :: 0 <= k && k < len(used) ==> 1 <= used[k].start && used[k].start <= used[k].end && used[k].end <= messageRangeInclusiveMax
+//@   loop 3 invariant 0 <= last && last <= messageRangeInclusiveMax
+//@   loop 3 invariant forall k int :: 0 <= k && k < len(unused) ==> 1 <= unused[k].start && unused[k].start <= unused[k].end && unused[k].end <= last
+//@   loop 3 invariant forall k int, j int :: 0 <= k && k < len(unused) && $i <= j && j < len(used) ==> unused[k].end < used[j].start
+//@   loop 3 invariant forall a int, b int :: 0 <= a && a < b && b < len(unused) ==> unused[a].end < unused[b].start
